@@ -10,7 +10,9 @@
   computes such a `W` from the covariance blocks is property C10, that the packed envelope
   profile computes the dense factor is property C16.
 -/
-import Gama.Lemmas.Ls.EnvAnswer
+import Gama.Lemmas.Ls.EnvFinal
+import Gama.Lemmas.Ls.EnvRefusalFinal
+import Mathlib.Analysis.Real.Sqrt
 import Gama.Lemmas.Ls.EnvExamples
 namespace Gama.Props.C01
 open Gama Gama.Ls Gama.Ls.Env Gama.LS Matrix
@@ -44,24 +46,88 @@ theorem C01_envelope_regular_minimal (tol stol : K) (m n : ℕ) (A : DMat K) (b 
   obtain ⟨x, hx, h⟩ := envCore_regular_isLS sq tol stol m n A b At bt reg o hO htol hW hAt hbt hd Finset.univ
   exact ⟨x, hx, h.minimal (hW ▸ gram_symm W) (hW ▸ gram_psd W), h.rtr_eq_Phi⟩
 
-/-
-  FULL STATEMENT (singular case), not yet proved:
+/-- **C01 (envelope), regular or singular**: for a problem whose rank is numerically unambiguous
+    (`FactUnambiguous`: every pivot the factorisation tests is exactly 0 or at least `tol` in
+    absolute value), whenever `unknowns()` returns, the answers `x`, `v = residuals()`,
+    `rtr = sum_of_squares()` satisfy `v = A x − b`, `AᵀP v = 0`, `rtr = vᵀP v`, and `x` is
+    `S`-orthogonal to the kernel of `A` for the configured regularisation subset `S` — by LS3
+    the minimiser with the smallest `Σ_{i∈S} x_i²` (`C01_envelope_min_norm`).
+    `sq` is a square root (`IsSqrt`), `s_tol > 0` the Gram–Schmidt threshold; `W` injective
+    with `WᵀW = P` is the homogenisation (C10). -/
+theorem C01_envelope_singular (hsq : IsSqrt sq) (tol stol : K) (m n : ℕ) (A : DMat K) (b : Array K)
+    (At : DMat K) (bt : Array K) (reg : Reg) (o : EnvOrd) (hO : OrdOK n o)
+    (hU : FactUnambiguous sq tol m n At bt o) (htol : 0 < tol) (hstol : 0 < stol)
+    {P W : Matrix (Fin m) (Fin m) K} (hW : Wᵀ * W = P) (hWinj : ∀ d, W *ᵥ d = 0 → d = 0)
+    (hAt : toMatrix m n At = W * toMatrix m n A) (hbt : toVec m bt = W *ᵥ toVec m b)
+    (hreg : RegOK n o reg (reg.toFinset n)) {x : Array K}
+    (hx : (@envCore K (fieldScalar sq) tol stol m n A b At bt reg o).x = .ok x) :
+    IsLSSolution (toMatrix m n A) (toVec m b) P (reg.toFinset n) (toVec n x)
+      (toVec m (@envCore K (fieldScalar sq) tol stol m n A b At bt reg o).r)
+      (@envCore K (fieldScalar sq) tol stol m n A b At bt reg o).rtr :=
+  envCore_isLS sq tol stol m n A b At bt reg o hsq hO hU htol hstol hW hWinj hAt hbt hreg hx
 
-  theorem C01_envelope_singular … (hU : FactUnambiguous sq tol m n At bt o)
-      (hS : Resolves (toMatrix m n A) (reg.toFinset n)) :
-      ∃ x, (envCore …).x = .ok x ∧
-        IsLSSolution (toMatrix m n A) (toVec m b) P (reg.toFinset n) (toVec n x) (toVec m (envCore …).r) (envCore …).rtr
+/-- among all minimisers the returned `x` has the smallest sum of squares over `S`, and the
+    reported sum of squares is the minimum of the objective -/
+theorem C01_envelope_min_norm (hsq : IsSqrt sq) (tol stol : K) (m n : ℕ) (A : DMat K) (b : Array K)
+    (At : DMat K) (bt : Array K) (reg : Reg) (o : EnvOrd) (hO : OrdOK n o)
+    (hU : FactUnambiguous sq tol m n At bt o) (htol : 0 < tol) (hstol : 0 < stol)
+    {P W : Matrix (Fin m) (Fin m) K} (hW : Wᵀ * W = P) (hWinj : ∀ d, W *ᵥ d = 0 → d = 0)
+    (hAt : toMatrix m n At = W * toMatrix m n A) (hbt : toVec m bt = W *ᵥ toVec m b)
+    (hreg : RegOK n o reg (reg.toFinset n)) {x : Array K}
+    (hx : (@envCore K (fieldScalar sq) tol stol m n A b At bt reg o).x = .ok x) :
+    (∀ y, Phi (toMatrix m n A) (toVec m b) P (toVec n x) ≤ Phi (toMatrix m n A) (toVec m b) P y)
+    ∧ (@envCore K (fieldScalar sq) tol stol m n A b At bt reg o).rtr
+        = Phi (toMatrix m n A) (toVec m b) P (toVec n x)
+    ∧ ∀ y, (∀ z, Phi (toMatrix m n A) (toVec m b) P y ≤ Phi (toMatrix m n A) (toVec m b) P z) →
+        normS (reg.toFinset n) (toVec n x) ≤ normS (reg.toFinset n) y := by
+  have h := envCore_isLS sq tol stol m n A b At bt reg o hsq hO hU htol hstol hW hWinj hAt hbt hreg hx
+  have hpd : ∀ d : Fin m → K, d ≠ 0 → 0 < d ⬝ᵥ P *ᵥ d := hW ▸ gram_pd W hWinj
+  exact ⟨h.minimal (hW ▸ gram_symm W) (hW ▸ gram_psd W), h.rtr_eq_Phi,
+    h.min_norm_among_minimisers (hW ▸ gram_symm W) hpd⟩
 
-  Proved below (`_partial`): for EVERY unambiguous problem (every tested pivot is exactly 0 or
-  ≥ tol), regular or singular, the particular solution `x0` that `solve_x0` computes solves the
-  normal equations of the homogenised system in the new numbering, its dependent components
-  are 0, and `squares` is `‖Ãx0 − b̃‖²`.  `residuals()` and `sum_of_squares()` are computed
-  from `x0`, so they are the true residuals / minimum already.  Missing: the kernel columns
-  `kerCol` span `ker N` (`N g = 0` and independence are the same triangular argument as
-  `solve_dep_zero`), and the Gram–Schmidt loop `gsCols`/`orthAgainst` returns `x = x0 − G c`
-  with `x ⟂_S ker` (LS3 then gives minimal S-norm via `IsLSSolution.orth_of_span`).
--/
-theorem C01_envelope_singular_partial (tol : K) (m n : ℕ) (At : DMat K) (bt : Array K) (o : EnvOrd)
+/-- the same for ANY scalar structure `S` on `K` that computes the field operations
+    (`LawfulScalar`), not only the canonical `fieldScalar` -/
+theorem C01_envelope_lawful (S : Scalar K) (hS : LawfulScalar S) (hsq : IsSqrt S.sqrt) (tol stol : K) (m n : ℕ)
+    (A : DMat K) (b : Array K) (At : DMat K) (bt : Array K) (reg : Reg) (o : EnvOrd) (hO : OrdOK n o)
+    (hU : FactUnambiguous S.sqrt tol m n At bt o) (htol : 0 < tol) (hstol : 0 < stol)
+    {P W : Matrix (Fin m) (Fin m) K} (hW : Wᵀ * W = P) (hWinj : ∀ d, W *ᵥ d = 0 → d = 0)
+    (hAt : toMatrix m n At = W * toMatrix m n A) (hbt : toVec m bt = W *ᵥ toVec m b)
+    (hreg : RegOK n o reg (reg.toFinset n)) {x : Array K}
+    (hx : (@envCore K S tol stol m n A b At bt reg o).x = .ok x) :
+    IsLSSolution (toMatrix m n A) (toVec m b) P (reg.toFinset n) (toVec n x)
+      (toVec m (@envCore K S tol stol m n A b At bt reg o).r) (@envCore K S tol stol m n A b At bt reg o).rtr := by
+  obtain ⟨sq', rfl⟩ : ∃ sq', S = fieldScalar sq' := ⟨S.sqrt, hS.eq_fieldScalar⟩
+  exact envCore_isLS sq' tol stol m n A b At bt reg o hsq hO hU htol hstol hW hWinj hAt hbt hreg hx
+
+/-- **C02_refusal_env**: with unambiguous pivots in the factorisation (`FactUnambiguous`) and in
+    the Gram–Schmidt loop (`GSUnambiguous`: every tested `pivot` is 0 or ≥ `s_tol`),
+    `unknowns()` answers iff the regularisation subset resolves the defect
+    (`Resolves A S`: a kernel vector of `A` that vanishes on `S` is zero), and the only thing
+    it ever throws is `BadRegularization` -/
+theorem C02_refusal_env (hsq : IsSqrt sq) (tol stol : K) (m n : ℕ) (A : DMat K) (b : Array K)
+    (At : DMat K) (bt : Array K) (reg : Reg) (o : EnvOrd) (hO : OrdOK n o)
+    (hU : FactUnambiguous sq tol m n At bt o) (htol : 0 < tol) (hstol : 0 < stol)
+    {W : Matrix (Fin m) (Fin m) K} (hWinj : ∀ d, W *ᵥ d = 0 → d = 0)
+    (hAt : toMatrix m n At = W * toMatrix m n A)
+    (hreg : RegOK n o reg (reg.toFinset n))
+    (hGS : GSUnambiguous sq (n := n) tol stol m At bt o (regList n o reg)) :
+    ((∃ x, (@envCore K (fieldScalar sq) tol stol m n A b At bt reg o).x = .ok x)
+        ↔ Resolves (toMatrix m n A) (reg.toFinset n))
+    ∧ ∀ e, (@envCore K (fieldScalar sq) tol stol m n A b At bt reg o).x = .error e → e = .BadRegularization :=
+  envCore_refusal sq tol stol m n A b At bt reg o hsq hO hU htol hstol hWinj hAt hreg hGS
+
+/-- the hypotheses on the regularisation list hold for `min_x()` (all unknowns) and for every
+    list of distinct valid unknown numbers -/
+theorem C01_envelope_regOK (n : ℕ) (o : EnvOrd) (hO : OrdOK n o) :
+    RegOK n o .all ((Reg.all).toFinset n) ∧ RegOK n o .none ((Reg.none).toFinset n)
+    ∧ ∀ l : List ℕ, l.Nodup → (∀ k ∈ l, 1 ≤ k ∧ k ≤ n) → RegOK n o (.subset l) ((Reg.subset l).toFinset n) :=
+  ⟨regOK_all hO _ (Or.inl rfl), regOK_all hO _ (Or.inr rfl), fun l h1 h2 => regOK_subset hO l h1 h2⟩
+
+/-- what holds for every unambiguous problem even when the regularisation is refused: the
+    particular solution `x0` (from which `residuals()` and `sum_of_squares()` are computed)
+    solves the normal equations of the homogenised system, its dependent components are 0,
+    and `squares = ‖Ãx0 − b̃‖²` -/
+theorem C01_envelope_particular (tol : K) (m n : ℕ) (At : DMat K) (bt : Array K) (o : EnvOrd)
     (hU : FactUnambiguous sq tol m n At bt o) :
     (ApM sq tol m n At bt o)ᵀ *ᵥ (ApM sq tol m n At bt o *ᵥ x0V sq tol m n At bt o - btV sq tol m n At bt o) = 0
     ∧ (∀ k : Fin n, Df sq (NF sq tol m n At bt o) tol k = 0 → x0V sq tol m n At bt o k = 0)
@@ -99,10 +165,16 @@ example : (@envCore ℚ (fieldScalar id) (1/2) (1/2) 3 2 Ex.rA Ex.rb Ex.rA Ex.rb
     ∧ (@envCore ℚ (fieldScalar id) (1/2) (1/2) 3 2 Ex.rA Ex.rb Ex.rA Ex.rb .all Ex.ro).rtr = 3 := by
   decide +kernel
 
-/-- a singular system (defect 2, non-identity ordering) meets the hypothesis of the `_partial`
-    and factorisation theorems -/
+/-- a singular system (defect 2, non-identity ordering) meets the hypotheses `FactUnambiguous`, `OrdOK`,
+    `RegOK` of `C01_envelope_singular`; `Real.sqrt` is a square root (`IsSqrt`) -/
 example : FactUnambiguous (K := ℚ) id (1/2) 2 4 Ex.wA Ex.wb Ex.wo
     ∧ (@envCore ℚ (fieldScalar id) (1/2) (1/2) 2 4 Ex.wA Ex.wb Ex.wA Ex.wb .all Ex.wo).defect = 2 := by
   unfold FactUnambiguous Unambiguous; decide +kernel
+
+example : OrdOK 4 Ex.wo ∧ RegOK 4 Ex.wo .all ((Reg.all).toFinset 4)
+    ∧ RegOK 4 Ex.wo (.subset [1, 2]) ((Reg.subset [1, 2]).toFinset 4) :=
+  ⟨Ex.wo_ok, regOK_all Ex.wo_ok _ (Or.inl rfl), regOK_subset Ex.wo_ok [1, 2] (by decide) (by decide)⟩
+
+example : IsSqrt Real.sqrt := ⟨fun _ h => Real.mul_self_sqrt h, fun x _ => Real.sqrt_nonneg x⟩
 
 end Gama.Props.C01
